@@ -122,7 +122,7 @@ def crashKey (impl : String) : Option String :=
   if impl.startsWith "PANIC" then some ("panic:" ++ String.ofList (impl.toList.take 120))
   else if impl.startsWith "HANG" then some "hang:no result"
   else if impl.startsWith "FATAL" then some ("fatal:" ++ String.ofList (impl.toList.take 120))
-  else if impl.startsWith "ENV" || impl.startsWith "CHILD-FAILED" then some ("env:" ++ String.ofList (impl.toList.take 120))
+  else if impl.startsWith "CHILD-FAILED" then some ("env:" ++ String.ofList (impl.toList.take 120))
   else if impl.startsWith "setup=" then some ("setup:" ++ String.ofList (impl.toList.take 120))
   else none
 
@@ -205,7 +205,8 @@ def judgeEngineScen (c : Cfg) (shots : Nat) (impl : String) : String :=
     let allowed := allowedCalls c
     match calls.find? (fun x => !(allowed.contains x)) with
     | some bad =>
-      if (allowed.map (proj 2)).contains (proj 2 bad) then s!"fail:metadata:received {bad}, which no shot's variables render"
+      if (allowed.map (proj 3)).contains (proj 3 bad) then s!"fail:timeout:received {bad}: deadline differs from the configured timeout"
+      else if (allowed.map (proj 2)).contains (proj 2 bad) then s!"fail:metadata:received {bad}, which no shot's variables render"
       else s!"fail:message:received {bad}"
     | none =>
       let n := expectedCallCount c shots
